@@ -26,6 +26,7 @@ def run(ctx):
                 jobs.append((exe, [alg, p, ml, 1 if (p != "walk" and (ctx.thorough or (main and p in ("0", "3")))) else 0], "%s" % be))
             for fam in ("aead", "inc"):
                 jobs.append((lpc, [fam, alg, lpcmax if main else 12], "%s" % be))
+            jobs.append((exe, [alg, "chunks", 0, 1 if (ctx.thorough and be in ("asm", "dxor", "c32")) else 0], "%s" % be))   # chunk sizes of the incremental calls around 256/512/.../65536
     # the masked (and C++ masked) entry points again under other share configurations: their init/finalize paths convert between share counts
     triples = [t for t in build.ALL_TRIPLES if t != build.DEFAULT_TRIPLE] if ctx.thorough else [(2, 1, 2), (3, 2, 3), (4, 3, 4), (3, 3, 3), (4, 4, 4)]
     # (the direct-XOR and generic cores have branches of their own in the conversions between share counts)
